@@ -16,6 +16,10 @@ def main() -> None:
     ctx = core.Ctx(spec["property"], sub.name, spec["tier"], spec["seed"], deadline=time.time() + spec["soft_deadline_s"])
     status = "ok"
     error = None
+    import faulthandler
+
+    # if this process is ever killed for running too long, its log shows where it was
+    faulthandler.dump_traceback_later(max(30, spec["soft_deadline_s"]), repeat=True, file=sys.stderr)
     try:
         if sub.runner is not None:
             sub.runner(ctx, spec)
